@@ -651,4 +651,44 @@ theorem farm_writeN_count (a : FArm) (b : Bytes) (hok : a.EncOk) (hf : a.failed 
   cases FArm.spaceOut ((a.feed e').buf.length + 1) (a.feed e') with
   | mk ok2 s2 => cases ok2 <;> rfl
 
+/-! ## sticky along whole runs of calls -/
+
+theorem farm_calls_fault_flag (f0 : Nat) : ∀ (ops : List (Option Bytes)) (a : FArm),
+    (a.w.faults ≠ f0 → a.failed = true) →
+    ((FArm.calls a ops).2.w.faults ≠ f0 → (FArm.calls a ops).2.failed = true) := by
+  intro ops
+  induction ops with
+  | nil => intro a h; exact h
+  | cons o ops ih =>
+    intro a h
+    cases o with
+    | none =>
+      unfold FArm.calls
+      simp only
+      apply ih
+      intro hne
+      by_cases hc : a.close.2.w.faults = a.w.faults
+      · have hf := h (by rw [← hc]; exact hne)
+        rw [farm_close_failed a hf]; exact hf
+      · exact (farm_fault_sets_flag a []).2 hc
+    | some b =>
+      unfold FArm.calls
+      simp only
+      apply ih
+      show (a.write b).2.w.faults ≠ f0 → (a.write b).2.failed = true
+      intro hne
+      by_cases hc : (a.write b).2.w.faults = a.w.faults
+      · have hf := h (by rw [← hc]; exact hne)
+        rw [farm_write_failed a b hf]; exact hf
+      · exact (farm_fault_sets_flag a b).1 hc
+
+/-- before `Close` too: after any `Write`s the writer holds a prefix of the complete text -/
+theorem farm_run_prefix (par : Armor.Params) (he : par.enc.WF) (hw : 0 < par.bytesPerWord) (hdr ftr : Bytes)
+    (sink : Stream.Sink) (ws : List Bytes) (hi : (FArm.init par hdr ftr ({ sink := sink } : Wr)).1 = true) :
+    (farmRun (FArm.init par hdr ftr ({ sink := sink } : Wr)).2 ws).w.bytes <+: Armor.sealText par hdr ftr ws.flatten := by
+  obtain ⟨hs, hf, _⟩ := farm_init_sim par hdr ftr sink hi
+  obtain ⟨_, r2⟩ := run_sim ws _ _ hs (farm_encOk_init par hdr ftr _) hf
+  rw [← armorWriter_any_split par he hw hdr ftr ws]
+  exact r2.trans (arm_close_mono _)
+
 end Saltpack.Proofs.SenderP
